@@ -15,7 +15,114 @@ Spec vocabulary
   pts[m]      := (ghost) the value of `prev` when the sampler's iteration counter reached m
   rows[r]     := (ghost) the value stored into row r of the array created by `np.zeros((n, ...))`, row_it[r] the counter at that moment
 
-(see the individual contracts below for what is proved; the list of mutants is at the end of this docstring)
+PROVED (preconditions, all stated in `pre=`: n >= 0, thinning >= 1, nproj >= 1 [documented: int > 0], n_samples >= 0, processes >= 1,
+the model's reaction DictList well-formed):
+  ACHRSampler.__single_iteration   exactly ONE step(self, prev, warmup[<random>, :] - center) with the default fraction; point AND centre are
+        re-projected exactly when `problem.homogeneous and n_samples * thinning % nproj == 0` (old n_samples); the centre becomes
+        n*c/(n+1) + p/(n+1) with the OLD count n (the running mean of n+1 points), n_samples is incremented once; the new point is
+        okpt.  RuntimeError of step propagates.
+  ACHRSampler.sample(n, fluxes)    loop invariant (k iterations done): n_samples = n_samples0 + k, rows [0, k // thinning) of the array created
+        as np.zeros((n, warmup.shape[1])) are written and no other, row r was written when the counter was n_samples0 + (r+1)*thinning
+        with the point reached then (rows[r] = pts[that counter]) and is okpt.  Hence: EXACTLY n rows, row i = the point after
+        (i+1)*thinning iterations (no off-by-one: the loop variable runs 1 .. thinning*n, stores at i // thinning - 1 when i % thinning == 0),
+        thinning*n iterations in all; fluxes=True: DataFrame(samples[:, fwd_idx] - samples[:, rev_idx], columns = [the reaction ids in model
+        order]); fluxes=False: DataFrame(samples, columns = [v.name in solver order]).
+        NOTE (stated, not hidden): a stored point need NOT have passed the bounds guard: when a re-projection was due and the equalities
+        were violated it is the value of `_random_point()` (a mean of warmup rows), which no guard looks at.
+  optgp.mp_init                    the module global `sampler` is the argument.
+  optgp._sample_chain((n, idx))    np.random.seed is called exactly once, with (sampler._seed + idx) % (2**31 - 1), BEFORE any np.random draw of
+        the function (ghost flags set by the hooks: a draw before the seeding / a second seeding would be flagged; checked in the loop
+        invariant too); no sampler field but `retries` is written (centre and n_samples are LOCAL); the result is (sampler.retries, the array
+        np.zeros((n, center.shape[0]))) whose rows [0, n) and no other were written, row r when the step counter was 1 + (r+1)*thinning
+        (1 = the start-up step with fraction 0.95) with the result of that step or the random point that replaced it, okpt.  Reads only
+        sampler fields (anything else would be an unbound name for the executor): with the trusted determinism of np.random the chain is a
+        function of (sampler fields, n, idx).
+  OptGPSampler.sample(n, fluxes)   serial (processes = 1): mp_init(self); _sample_chain((n, 0)) in process; n rows.  Parallel (processes > 1),
+        under the ASSUMED ordered-map contract `Pool.map` (see its note): n_process = c with c*P >= n > (c-1)*P  [np.ceil(n / P).astype(int),
+        float division and ceil assumed exact]; ONE pool created with exactly (P, initializer=mp_init, initargs=(self,)) before any field of
+        self is written, entered, ONE map(_sample_chain, [(c, j) for j in range(P)], chunksize=1) - the items are proved to be exactly these
+        pairs and the precondition of _sample_chain is an obligation for an arbitrary j in the state mp_init's proved contract leaves in a
+        worker -, left again (also when a task raises); chains = np.vstack of the P chains IN INDEX ORDER; rows returned = c*P with
+        n <= c*P < n + P; self.retries += the sum of the tasks' retries; BOTH branches: n_samples += the number of samples ACTUALLY
+        generated, center = (n_samples*center + atleast_2d(chains).sum(0)) / (n_samples + that number); the frame as for ACHR.
+  HRSampler._bounds_dist(p)        np.array([min over (p - lb), min over (ub - p)]), each combined with the constraint distances
+        (A p - lower, upper - A p) exactly when the problem has constraints.
+  HRSampler._random_point()        warmup[idx, :].mean(axis=0) for a random index array (RP).
+  HRSampler._reproject(p)          if np.allclose(equalities.dot(p), b, rtol=0, atol=feasibility_tol) (and p != p nowhere): returns p; in every
+        case returns p or a _random_point(); the projection nulls.dot(nulls.T.dot(p)) is computed exactly when the equalities are violated and
+        RETURNED only when it compares equal to p in every element (ASSUMED extensionality: then it IS p).  See FINDING 1.
+  HRSampler.validate(samples)      ValueError unless the number of columns is len(model.reactions) (flux space: S = create_stoichiometric_matrix,
+        b / bounds built from the model) or len(model.variables) (variable space: problem.equalities / b / variable_bounds, plus the
+        inequality rows when there are any); then, under the ASSUMED row-wise semantics of the final numpy operations (`numpy.rowwise`), for an
+        arbitrary row with f = max |S x - b|, lb = min (x - lower), ub = min (upper - x):
+            code = ("v" if f < feasibility_tol and lb > -bounds_tol and ub > -bounds_tol) + ("l" if lb <= -bounds_tol)
+                   + ("u" if ub <= -bounds_tol) + ("e" if f > feasibility_tol)           (in this order)
+        hence: the code is "v" iff the row is feasible; it contains l / u / e exactly for a violated lower bound / upper bound / equality;
+        it has 1 to 3 letters PROVIDED f != feasibility_tol.  See FINDING 2.
+  HRSampler.batch(size, num, fluxes)  (ACHRSampler receiver, generator executed eagerly through the new `yield` hook) exactly max(num, 0) values
+        are yielded, each the result of ONE self.sample(size, fluxes=fluxes); n_samples grows by num * thinning * size.
+  sampling.sample(model, n, method, thinning, processes, seed)  "optgp" -> OptGPSampler(model, processes=processes, thinning=thinning,
+        seed=seed), "achr" -> ACHRSampler(model, thinning=thinning, seed=seed) (constructors by the ASSUMED contract
+        HRSampler.__init__@samplers), then ONE sampler.sample(n) and DataFrame(columns=[the model's reaction ids in order], data=<its result>);
+        any other method: ValueError before any constructor is called; an exception in the optgp / achr cases only after the constructor call.
+
+ASSUMED: Pool.map (ordered map, workers initialised on a private copy), numpy.rowwise (validate only), HRSampler.__init__@samplers
+(dispatch only), float division / np.ceil exact, extensionality of arrays (`not any(a != b)` -> same point; _reproject only), np.random
+deterministic given the seed, and the standing assumptions of the opaque algebra (pyvc/npalg.py).
+
+FINDINGS (native reproduction with /venv/bin/python against /repo; neither breaks the feasibility statement of C16)
+  1. HRSampler._reproject never returns the projection.  Documented: "Reproject a point into the feasibility region ... Projections may
+     violate bounds - set to random point in space in that case".  The code tests `any(new != p)` instead of the bounds, so EVERY projection
+     that differs from p in any element is thrown away for `_random_point()`.  Toy model EX_A <-> A, R1: A <-> B, EX_B: B <-> (all bounds
+     [-10, 10]), ACHRSampler(seed=3), p = (5, 3, 5, 3, 5, 3) (strictly interior, S p = 0), q = p + 1e-3 e_0: the projection of q satisfies the
+     equalities and has bounds distances (2.9998, 4.9993) - it passes the guard - but `_reproject(q)` returns `_random_point()` (2.0 away).
+  2. HRSampler.validate returns the EMPTY code '' (documented: "a code of 1 to 3 letters") for a sample whose equality residual is
+     EXACTLY feasibility_tol (`< tol` for 'v', `> tol` for 'e'), and for samples containing NaN.  Textbook model, ACHRSampler(seed=42): a
+     returned sample with PGI += 0.25 has residual 0.24999999999999625; with sampler.feasibility_tol set to that number validate gives [''],
+     with twice it ['v'], with half of it ['e']; a NaN entry gives [''] as well.
+
+ENGINE CHANGES (additive): pyvc/loops.py `fresh_like`: a loop-assigned local holding an OPAQUE array (npalg.VNp) is havocked in the arbitrary
+iteration (it used to keep its entry value - unsound for _sample_chain's `prev` / `center`); pyvc/engine.py `e_Yield`: `yield` through a new
+hook "yield" (unsupported without it).
+
+MUTANTS (tools/mutate_and_run.sh; each is NOT verified; the obligation that broke):
+  achr.py    `self.n_samples += 1` -> `pass`                                   __single_iteration post.1 (count)
+             `self.prev / (self.n_samples + 1)` -> `/ (self.n_samples)`          __single_iteration post.11 / post.7 (running mean)
+             `self._reproject(self.center)` -> `self._reproject(self.prev)`     __single_iteration post.9, post.10
+             `self.warmup[pi, :] - self.center` -> reversed                     __single_iteration post.4 (direction)
+             `% self.nproj == 0` -> `== 1`                                      __single_iteration post.6 / post.5 (when re-projection is due)
+             `step(self, self.prev, delta)` -> `step(self, self.center, delta)` __single_iteration post.3
+             `if i % self.thinning == 0` -> `== 1`                              sample loop#0/inv-preserve.4, .5
+             `samples[i // self.thinning - 1, :]` -> `samples[i // self.thinning, :]`   sample loop#0/inv-preserve.4, .5
+             `range(1, self.thinning * n + 1)` -> `range(1, self.thinning * n)`  sample loop#0/inv-init.1
+             `range(1, ...)` -> `range(0, self.thinning * n)`                   sample loop#0/inv-preserve.4, .5
+             fwd_idx / rev_idx swapped                                          sample exit/post.3 (data of the frame)
+             `= self.prev` -> `= self.center` (stored value)                    sample loop#0/inv-preserve.4
+             variable names -> reaction ids in the fluxes=False branch          sample post (columns)
+  optgp.py   seed call moved after the first draw                               _sample_chain loop#0/inv-init.8 (rng)
+             `(sampler._seed + idx)` -> `(sampler._seed)`                       _sample_chain loop#0/inv-init.8
+             `samples[...] = prev` -> `= center`                                _sample_chain loop#0/inv-preserve.6
+             `n_samples += 1` -> `sampler.n_samples += 1`                       _sample_chain loop#0/inv-preserve.3, .9 (local count, field write)
+             `range(1, T*n + 1)` -> `range(T*n)`                                _sample_chain loop#0/inv-preserve.6, .7
+             `return (sampler.retries, samples)` -> `(n_samples, samples)`      _sample_chain exit/post.1
+             `n = n_process * self.processes` dropped (requested n used)        OptGPSampler.sample post.17, post.18 (n_samples, centre)
+             `range(self.processes)` -> `range(1, self.processes + 1)`          OptGPSampler.sample pool.map/item j is (n_process, j)
+             `n = n_process * (self.processes - 1)`                             OptGPSampler.sample post.17, post.18 (unknown)
+             `self.retries += sum(...)` -> `+= 0`                               OptGPSampler.sample post
+             `self.n_samples + n` -> `self.n_samples + 1` (centre)              OptGPSampler.sample post.18
+             `_sample_chain((n, 0))` -> `_sample_chain((n, 1))`                 OptGPSampler.sample exit#2/post.4
+             `[n_process] * self.processes` -> `[n] * self.processes`           OptGPSampler.sample post.7, post.9
+  hr_sampler.py  `(p - prob.variable_bounds[0,])` reversed                      _bounds_dist post
+             `min(lb_dist, const_lb_dist)` -> `min(lb_dist, const_ub_dist)`     _bounds_dist post
+             `self.warmup[idx, :]` -> `self.warmup[:, idx]`                     _random_point post
+             `new = p` -> `new = nulls.dot(p)`                                  _reproject post.1
+             `if any(new != p)` -> `if not any(new != p)`                       _reproject post.1, post.3
+             validate: letter "l" -> "u"; `feasibility <` -> `<=`; `(samples - bounds[0,])` reversed; `ub_error <=` -> `<` in one of the two
+             masks (unsupported: mask mismatch); `elif ... len(self.model.variables)` -> `reactions`; `bounds = prob.bounds`   validate post.2 /
+             unexpected-exception
+             batch: `sample(batch_num, ...)`, `sample(batch_size)`, `range(batch_num - 1)`     batch loop#0/inv-preserve.1, exit/post
+  sampling.py `processes=processes` -> `processes=1`; `elif method != "achr"`; `seed=seed` dropped; `sample(n, fluxes=False)`;
+             `if method == "achr"` first                                        sampling.sample post / raise post / expected-ValueError
 """
 import z3
 import cobra  # noqa
@@ -1271,3 +1378,61 @@ REG.add(Contract(MH, "HRSampler.validate", "C16", [("self", _vsampler_t()), ("sa
                                      ("ghost", "flux_terms", lambda st: None)],
                  result=_res_np("codes"), key="HRSampler.validate",
                  note="row-wise semantics of the final numpy operations assumed (contract numpy.rowwise)"))
+
+
+# ================================================================ HRSampler.batch (a generator, executed eagerly)
+def b_yield(eng, st, v):
+    return [("ok", st.setghost("yields", _trace(st, "yields") + (v,)).setghost("n_yields", st.ghost.get("n_yields", z3.IntVal(0)) + 1), NONE)]
+
+
+HOOKS_B = chain_hooks({"yield": b_yield, "call_method": d_call_method}, HOOKS_S)
+
+
+def _batch_inv(E, Lc):
+    me, st = E["self"], Lc.st
+    T, ns0, bs = at(E.s0, me, "thinning").t, at(E.s0, me, "n_samples").t, E["batch_size"].t
+    calls, ys = _trace(st, "sample_calls"), _trace(st, "yields")
+    # in the iteration just executed (the traces are emptied when the loop is cut): ONE sample(batch_size, fluxes=fluxes) on self,
+    # and its result is the ONE value yielded
+    one = (len(calls) == 0 and len(ys) == 0) or (
+        len(calls) == 1 and len(ys) == 1 and calls[0]["recv"] is me and len(calls[0]["pos"]) == 1 and calls[0]["pos"][0] is E["batch_size"]
+        and set(calls[0]["kw"]) == {"fluxes"} and calls[0]["kw"]["fluxes"] is E["fluxes"] and ys[0] is calls[0]["res"])
+    return z3.And(z3.BoolVal(bool(one)), st.ghost.get("n_yields", z3.IntVal(0)) == Lc.i,
+                  at(st, me, "n_samples").t == ns0 + Lc.i * (T * bs))
+
+
+def _batch_loop_mod(E, Lc):
+    base = _si_mod(E) + [("ghost", "pts", lambda st: fresh("pts", IntNP)), ("ghost", "rows", lambda st: fresh("rows", IntNP)),
+                         ("ghost", "row_it", lambda st: fresh("row_it", IntInt)), ("ghost", "written", lambda st: fresh("written", IntBool)),
+                         ("ghost", "rows_of", lambda st: None), ("ghost", "df_calls", lambda st: ())]
+    return base + [("ghost", "sample_calls", lambda st: ()), ("ghost", "yields", lambda st: ()),
+                             ("ghost", "n_yields", lambda st: fresh("n_yields", z3.IntSort()))]
+
+
+def _batch_post(E):
+    me = E["self"]
+    T, ns0, bs, bn = at(E.s0, me, "thinning").t, at(E.s0, me, "n_samples").t, E["batch_size"].t, E["batch_num"].t
+    k = z3.If(bn > 0, bn, 0)
+    return z3.And(E.s1.ghost.get("n_yields", z3.IntVal(0)) == k,                       # batch_num frames are yielded ...
+                  at(E.s1, me, "n_samples").t == ns0 + k * (T * bs))                   # ... of batch_size samples each
+
+
+def _batch_cases():
+    out = []
+    for fl in (True, False):
+        c = Case("fluxes" if fl else "variables", ensures=_batch_post)
+        c.params_override = {"fluxes": TConc(fl)}
+        c.may_raise = "RuntimeError"
+        c.ensures_on_raise = lambda E: z3.BoolVal(True)
+        c.modifies_on_raise = lambda E: _batch_loop_mod(E, None)
+        out.append(c)
+    return out
+
+
+REG.add(Contract(MH, "HRSampler.batch", "C16", [("self", _achr_self()), ("batch_size", TInt()), ("batch_num", TInt()), ("fluxes", _fl)],
+                 _batch_cases(), pre=lambda E: z3.And(_si_pre(E), E["batch_size"].t >= 0,
+                                                      WF(E, E.s0, at(E.s0, me_model(E.s0, E["self"]), "reactions"))),
+                 modifies=lambda E: _batch_loop_mod(E, None), axioms=lambda E: rp_axioms(),
+                 loops={0: LoopSpec(_batch_inv, _batch_loop_mod)}, key="HRSampler.batch",
+                 note="verified for an ACHRSampler receiver (self.sample = ACHRSampler.sample by its contract); the generator is executed "
+                      "eagerly (laziness is not modelled); batch_size >= 0 and the preconditions of sample"))
